@@ -319,6 +319,105 @@ fn ind_outer(v: &Value) -> Value {
     })
 }
 
+// ----------------------------------------------------------------------------- Odd: unusual property NAMES
+/// A struct whose property names are what real code uses and the other structs avoid: camelCase, upper case, digits and
+/// underscores, names that are prefixes of one another, names equal to JSON literals.  All fields are always present.
+pub const ODD_NAMES: [(&str, &str); 9] = [("userName", "s"), ("ID", "i"), ("x", "b"), ("xx", "s"), ("X", "s"), ("a_b2", "i"), ("true", "s"), ("null", "i"), ("Is Set", "b")];
+#[derive(Clone, Debug, Default)]
+pub struct Odd {
+    pub strs: std::collections::BTreeMap<String, String>,
+    pub ints: std::collections::BTreeMap<String, i128>,
+    pub bools: std::collections::BTreeMap<String, bool>,
+}
+impl New for Odd {
+    fn new() -> Self {
+        Odd::default()
+    }
+}
+impl ToJSON for Odd {
+    fn list_properties() -> Vec<JSONProperty> {
+        ODD_NAMES.iter().map(|(n, t)| prop(n, match *t { "s" => JSON_TYPE.string, "i" => JSON_TYPE.integer, _ => JSON_TYPE.boolean })).collect()
+    }
+    fn get_property(&self, property_name: String) -> JSONValue {
+        let mut v = JSONValue::new();
+        if let Some(x) = self.strs.get(&property_name) { v.string = Some(x.clone()) }
+        if let Some(x) = self.ints.get(&property_name) { v.i128 = Some(*x) }
+        if let Some(x) = self.bools.get(&property_name) { v.bool = Some(*x) }
+        v
+    }
+    fn to_json_string(&self) -> String {
+        JSON::to_json_string(Odd::list_properties().into_iter().map(|p| { let v = self.get_property(p.property_name.to_string()); (p, v) }).collect())
+    }
+}
+impl FromJSON for Odd {
+    from_json_boilerplate!();
+    fn set_properties(&mut self, properties: Vec<(JSONProperty, JSONValue)>) -> Result<(), String> {
+        for (p, v) in properties {
+            // exact, case-sensitive name comparison, as a struct written against the library would do
+            if let Some((n, t)) = ODD_NAMES.iter().find(|(n, _)| *n == p.property_name.as_str()) {
+                match *t {
+                    "s" => { if let Some(x) = v.string { self.strs.insert(n.to_string(), x); } }
+                    "i" => { if let Some(x) = v.i128 { self.ints.insert(n.to_string(), x); } }
+                    _ => { if let Some(x) = v.bool { self.bools.insert(n.to_string(), x); } }
+                }
+            }
+        }
+        Ok(())
+    }
+}
+fn odd_json(o: &Odd) -> Value {
+    // one record: name -> value as text (integers canonical decimal, booleans "true"/"false"); "<absent>" when not set
+    let mut m = serde_json::Map::new();
+    for (n, t) in ODD_NAMES.iter() {
+        let v = match *t {
+            "s" => o.strs.get(*n).cloned(),
+            "i" => o.ints.get(*n).map(|x| x.to_string()),
+            _ => o.bools.get(*n).map(|x| x.to_string()),
+        };
+        m.insert(n.to_string(), json!(v.unwrap_or_else(|| "<absent>".to_string())));
+    }
+    Value::Object(m)
+}
+pub fn json_odd(c: &Value) -> Value {
+    let mut o = Odd::new();
+    for (n, t) in ODD_NAMES.iter() {
+        let v = c["fields"][*n].as_str().unwrap_or("");
+        match *t {
+            "s" => { o.strs.insert(n.to_string(), v.to_string()); }
+            "i" => { o.ints.insert(n.to_string(), v.parse().unwrap_or(0)); }
+            _ => { o.bools.insert(n.to_string(), v == "true"); }
+        }
+    }
+    let value = odd_json(&o);
+    let o2 = o.clone();
+    let text = match guarded(move || o2.to_json_string()) {
+        Outcome::Done(t) => t,
+        Outcome::Panic { msg, loc } => return json!({"op":"json_odd","value":value,"obs":{"outcome":"panic","stage":"to_json","msg":msg,"loc":short_loc(&loc)},"ind":{"outcome":"err"}}),
+    };
+    let t2 = text.clone();
+    let lib = match guarded(move || { let mut x = Odd::new(); x.parse(t2).map(|_| x) }) {
+        Outcome::Done(Ok(x)) => json!({"outcome":"ok","parsed":odd_json(&x)}),
+        Outcome::Done(Err(e)) => json!({"outcome":"err","msg":e}),
+        Outcome::Panic { msg, loc } => json!({"outcome":"panic","msg":msg,"loc":short_loc(&loc)}),
+    };
+    let ind = match serde_json::from_str::<Value>(&text) {
+        Ok(v) if v.is_object() => {
+            let mut m = serde_json::Map::new();
+            for (n, t) in ODD_NAMES.iter() {
+                let x = match v.get(*n) {
+                    None => json!("<absent>"),
+                    Some(x) => match *t { "s" => ind_str(x), "i" => ind_int(x), _ => ind_bool(x) },
+                };
+                m.insert(n.to_string(), x);
+            }
+            json!({"outcome":"ok","parsed":Value::Object(m),"keys":v.as_object().map(|o| o.len()).unwrap_or(0)})
+        }
+        Ok(_) => json!({"outcome":"err","msg":"not an object"}),
+        Err(e) => json!({"outcome":"err","msg":e.to_string()}),
+    };
+    json!({"op":"json_odd","value":value,"text":text,"obs":lib,"ind":ind})
+}
+
 pub fn json_object(c: &Value) -> Value {
     let o = outer_of(c);
     let value = outer_json(&o);
